@@ -12,9 +12,9 @@ mv tests/seed_demo.rs /tmp/seed-out/$ID.demo.tmp
 suite=$(cargo test --workspace --no-fail-fast --offline 2>&1 | grep -E "^test result" | tr '\n' ' ')
 mv /tmp/seed-out/$ID.demo.tmp tests/seed_demo.rs
 with=$(cargo test --offline $FEAT --test seed_demo 2>&1 | grep -E "^test result" | tr '\n' ' ')
-git stash -q -- src
+git checkout -q -- src
 without=$(cargo test --offline $FEAT --test seed_demo 2>&1 | grep -E "^test result" | tr '\n' ' ')
-git stash pop -q
+git apply $OUT/patch.diff
 echo "suite-with-change: $suite"
 echo "demo-with-change: $with"
 echo "demo-without-change: $without"
